@@ -3,11 +3,12 @@ SPECIFICATION Spec
 CONSTANTS
     EMIT = TRUE
     Tier = "thorough"
-    NMix = 12000
+    NMix = 16000
     FIX_LOGSAFE = TRUE
     FIX_BODY = TRUE
     FIX_TLS13 = TRUE
     FIX_NOUSER = TRUE
+    FIX_XFF = TRUE
 INVARIANTS TypeOK VocabularyComplete ValueEqualsFunction OriginalVsRewritten EscapedFormsAreEscapes LogSafe HeaderSafe
            BodyUntouched TimeMonotone TLSFieldsExact CustomBeatsBuiltin Emit EmitVocab
 CHECK_DEADLOCK FALSE
